@@ -62,7 +62,7 @@ def run_shard(tier, seed, idx, n, res, tmp):
     b = budget(tier)
     for ci in common.case_range(idx, b['specs'], n, res):
         try:
-            case = rtwork.SpecCase(PROPERTY, seed, ci, tmp, rtwork.rt_profile())
+            case = rtwork.SpecCase(PROPERTY, seed, ci, tmp, rtwork.rt_profile(p_shared_type_name=0.15))
             positions = rtwork.typed_positions(case.m, case.pkg)
         except Exception as e:
             res.skip('package_not_usable:%s' % type(e).__name__)
